@@ -76,6 +76,9 @@ def gen(rng, fam):
         return [u(-2, 2), u(0.2, 3)]
     if fam == 'exponential':
         return [u(0.1, 4)]
+    if fam == 'beta' and rng.random() < 0.3:
+        # sharply peaked beta priors (large shape parameters): the density is still an ordinary double
+        return [rng.choice([60.0, 90.0, 120.0]), rng.choice([60.0, 90.0, 120.0, 3.0])]
     return [rng.choice([0.5, 1.0, 2.0, 3.0, u(0.2, 5)]), rng.choice([0.5, 1.0, 2.0, 3.0, u(0.2, 5)])]
 
 
